@@ -113,6 +113,7 @@ def run(s):
     s.oblige("C12.systems_have_relations", systems_ob, ["config.schema.json", "fill.fill_cij"], kind="finite")
 
     # ---------------- whole calculation [bounded]
+    phonon_terms(s)
     whole(s)
     s.min_obligations = 12
 
@@ -205,6 +206,45 @@ def check_calculator(calc):
             if not numpy.allclose(a, b, rtol=0, atol=0):
                 return "adiabatic and isothermal %r differ at T = 0" % (key,)
     return None
+
+
+def phonon_terms(s):
+    """bounded: the real non-shear contribution classes on synthetic spectra -- q-point lists that do and do not start at Gamma (the exclusion is positional), temperature
+    grids with T = 0 first / inside / absent and steps down to 0.5 K, frequencies up to 4000 cm^-1: every isothermal and adiabatic value is a finite real number"""
+    from oracles import phonon as oracle
+    rnd = numpy.random.RandomState(s.seed + 3)
+    n = 24 if s.tier == "quick" else 600
+    fails, evals = [], 0
+    for t in range(n):
+        nq, na = int(rnd.randint(1, 5)), int(rnd.randint(1, 4))
+        layout = ("zero_first", "no_zero", "zero_inside", "descending")[t % 4]
+        d = oracle.random_data(t, nt=4, nv=3, nq=nq, na=na, equal_e=(t % 2 == 0), t_layout=layout)
+        if t % 3 == 0:          # arbitrarily low T > 0 and stiff modes: hbar*omega/kT far above the overflow threshold of exp
+            d["T"] = numpy.array([0.0, 0.5, 1.0, 1.5]) if layout == "zero_first" else numpy.array([0.5, 1.0, 1.5, 2.0])
+            d["omega"] = d["omega"] * 2.5
+            d["omega"][:, 0, :3] = 0.0
+        for kind in (("longitudinal",) if t % 2 == 0 else ("off_diagonal",)):
+            evals += 1
+            try:
+                with warnings.catch_warnings(), numpy.errstate(all="ignore"):
+                    warnings.simplefilter("ignore")
+                    o = oracle.native_contribution(d, kind)
+                    vals = {"value_isothermal": numpy.asarray(o.value_isothermal), "value_adiabatic": numpy.asarray(o.value_adiabatic)}
+            except Exception as e:
+                fails.append({"witness_id": "phonon-terms:%d" % t, "input": {"seed": t, "nq": nq, "na": na, "T": d["T"].tolist(), "first_q_point": list(d["qcoords"][0])},
+                              "observed": "raises %r" % (e,), "expected": "finite values"})
+                break
+            bad = [k for k, v in vals.items() if v.shape != (4, 3) or numpy.iscomplexobj(v) or not numpy.all(numpy.isfinite(v))]
+            if bad:
+                fails.append({"witness_id": "phonon-terms:%d" % t, "input": {"seed": t, "kind": kind, "nq": nq, "na": na, "T": d["T"].tolist(), "first_q_point": list(d["qcoords"][0]),
+                                                                              "max_omega": float(d["omega"].max())},
+                              "observed": "%s contains nan / inf / complex entries: %s" % (bad, numpy.asarray(vals[bad[0]]).tolist()), "expected": "finite real numbers at every (T, V)"})
+                break
+        if fails:
+            break
+    s.bounded_standin("C12.phonon_terms_finite(synthetic spectra)", "%d synthetic spectra (1-4 q-points whose list starts at Gamma or not, 1-3 atoms, T grids with 0 K first / inside / "
+                      "absent, steps down to 0.5 K, frequencies up to 3750 cm^-1), seed %d" % (n, s.seed), evals, evals, fails,
+                      [NS + "value_isothermal", NS + "value_adiabatic", NS + "Q1", NS + "Q2", "nonshear.average_over_modes"])
 
 
 def whole(s):
